@@ -64,6 +64,10 @@ def run(tier):
     for b in res[0]["bad"]:
         chk.violation("copy outside the C09 Contract: %s" % events[b - 1], events[b - 1])
     # binding sanity: every scheduled write must have been performed at its yield point
+    pc = [e for e in events if e["e"] == "pcopy"]
+    if len(pc) != 4 or not all(e["redirected"] for e in pc):
+        raise vp.Broken("pointer-cell runs incomplete: the range-check hook of the backend did not fire: %s" % pc)
+    chk.cov["pointer_cell_runs"] = len(pc)
     unperformed = sum(1 for e in events if e.get("unperformed", 0) > 0)
     if unperformed:
         chk.drift({"what": "schedules with writes that found no yield point in the real code", "count": unperformed})
@@ -76,7 +80,8 @@ def run(tier):
     chk.cov["exhaustive"] = True
     chk.cov["exhaustive_scope"] = "every interleaving of the copier's steps with <= %d adversary writes over %d source cells " \
                                   "and 3 values, for the variants string/unique_ptr, string/std::string, range (short, long), " \
-                                  "array, struct, copy_memory_or_deny_access" % (w, n)
+                                  "array, struct, copy_memory_or_deny_access; plus 4 runs in which the source POINTER lives in sandbox " \
+                                  "memory and is redirected during RLBox's range check" % (w, n)
     chk.assumptions += ["the adversary acts only at the hook points (between RLBox's own reads of sandbox memory)",
                         "strings are terminated inside the region when the call starts (the unterminated case is D17/C10)"]
     return chk.finish(rule="one evaluation = one replayed schedule on one real variant judged by TLC (CopyAllowed); "
